@@ -134,7 +134,12 @@ def run_case(case, tier):
             continue   # leaks are judged below; UBSan classes are C11's subject
         viol.append(dict(key="C15|%s|%s" % (rep["kind"], rep["frame"]), what=rep["line"] + " stack=" + ",".join(rep.get("stack", [])[:6])))
         break
-    if blocked is not None:
+    backpressure = False
+    if blocked is not None and (lines[blocked["blocked"]] if blocked["blocked"] < len(lines) else "").startswith("enc_send"):
+        # a send_picture that blocks because the application has not fetched its packets / recon pictures is legal back-pressure
+        # (input / output pools exhausted), not a teardown problem: the case is inconclusive for this property
+        backpressure = True
+    elif blocked is not None:
         k = blocked["blocked"]
         ln = lines[k] if k < len(lines) else "?"
         viol.append(dict(key="C15|teardown-blocks|" + ln.split()[0], what="call %d `%s` blocked with the process idle (threads %s); history %s" % (k, ln, blocked.get("threads"), lines[max(0, k - 3):k])))
@@ -171,5 +176,7 @@ def run_case(case, tier):
     ss = case["sessions"]
     nt = any(s.get("inflight") for s in ss) or len(ss) >= 3 or any(s.get("tus") for s in ss)
     classes = ["%s:%s" % (s["kind"], s["point"]) for s in ss] + ["sessions%d" % len(ss)]
+    if backpressure:
+        return dict(violations=[], nontrivial=False, dkey=None, classes=classes + ["backpressure_in_send"], sample=None)
     return dict(violations=out, nontrivial=bool(nt), dkey=svt.case_hash(case), classes=classes,
                 sample=dict(sessions=ss, program=[l[:50] for l in lines][:30], exit=res["exit"]))
